@@ -34,3 +34,8 @@ Theorem C09_chk_singleton_route_sound : forall K stranded (a b : graph rpay),
   chk_same_partition K stranded a b = true -> same_partition K stranded a b.
 Proof. exact chk_same_partition_sound. Qed.
 Print Assumptions C09_chk_singleton_route_sound.
+
+Theorem C09_chk_exts_sound : forall D K stranded (g : graph D) censor out,
+  chk_exts D K stranded g censor out = true -> exts_exact D K stranded g censor out.
+Proof. exact chk_exts_sound. Qed.
+Print Assumptions C09_chk_exts_sound.
